@@ -356,4 +356,54 @@ example : parseGoCommand ("go".toList :: ([GoItem.junk "foo".toList, .wtime "5".
       .movestogo "7".toList 7, .wtime "9".toList 9, .junk "baz".toList].flatMap GoItem.tokens)) =
     some { wtime := 9, movestogo := some 7 } := by decide
 
+
+/-! ### the byte-stream process and the line-by-line machine are the same thing -/
+
+/-- the lines `read_from_gui` delivers from a byte stream, in order (the last one may be unterminated) -/
+def linesOf : Nat → List Char → List (List Char)
+  | 0, _ => []
+  | fuel + 1, inp =>
+    match readFromGui inp with
+    | none => []
+    | some (line, rest) => line :: linesOf fuel rest
+
+/-- run a list of lines through `step`, concatenating the outputs; stops at the first exit / panic / hang -/
+def runEvents : Sess → List (List Char) → List String × Option StreamEnd
+  | _, [] => ([], none)
+  | σ, raw :: rest =>
+    match step h search σ (some raw) with
+    | .cont σ' out => let r := runEvents σ' rest; (out ++ r.1, r.2)
+    | .exit c => ([], some (.exit c))
+    | .panic => ([], some .panic)
+    | .hang => ([], some .hang)
+
+/-- **the process on a byte stream = the dispatcher on the lines of that stream, then end of input**:
+    outputs are the same, and the process ends with whatever stopped the dispatcher, or with `exit 0`
+    when every line has been served -/
+theorem runStream_eq_runEvents (σ : Sess) (inp : List Char) :
+    ∀ fuel, inp.length < fuel →
+      runStream h search fuel σ inp =
+        ((runEvents h search σ (linesOf fuel inp)).1,
+         ((runEvents h search σ (linesOf fuel inp)).2).getD (.exit 0)) := by
+  intro fuel
+  induction fuel generalizing σ inp with
+  | zero => intro hlt; omega
+  | succ n ih =>
+    intro hlt
+    unfold runStream linesOf
+    cases hr : readFromGui inp with
+    | none => simp [runEvents]
+    | some lr =>
+      obtain ⟨line, rest⟩ := lr
+      have hp := readFromGui_progress inp line rest hr
+      simp only
+      unfold runEvents
+      cases hs : step h search σ (some line) with
+      | cont σ' out =>
+        simp only
+        rw [ih σ' rest (by omega)]
+      | exit c => simp
+      | panic => simp
+      | hang => simp
+
 end Walleye
